@@ -467,6 +467,16 @@ func vfC01Judge(c *vfC01Case, st vfC01Step, o vfC01Obs, tamperedBefore bool) (st
 			return "AD set although no trust anchor is configured", cls
 		}
 	}
+	if m.AuthenticatedData {
+		// a signature vouches for a name only when its signer is an ancestor of (or is) that name, label by label
+		for _, sec := range [][]dns.RR{m.Answer, m.Ns} {
+			for _, rr := range sec {
+				if sig, ok := rr.(*dns.RRSIG); ok && !vfmodel.IsSubdomain(sig.Hdr.Name, sig.SignerName) {
+					return fmt.Sprintf("AD set on a reply whose %s RRset at %s is signed by %s, which is no ancestor of that name", dns.TypeToString[sig.TypeCovered], sig.Hdr.Name, sig.SignerName), cls
+				}
+			}
+		}
+	}
 	if servfail {
 		cls = append(cls, "servfail")
 		if !st.EDNS && m.IsEdns0() != nil {
@@ -707,6 +717,31 @@ func vfC01Gen(rt *rapid.T) *vfC01Case {
 			c.Tamper.Edit = "corrupt-sigs"
 		}
 	}
+	// label-boundary impostor: an owner whose first label holds a literal dot ("t\.example.test." in test.) is
+	// re-signed by the zone its spelling resembles (example.test.), which is no ancestor of it
+	confusable := ""
+	if c.Tamper != nil && (c.Tamper.Edit == "foreign-signer" || c.Tamper.Edit == "corrupt-sigs") {
+		var cand [][3]string
+		for _, a := range apexes {
+			var owners []string
+			for o := range c.W.Zones[a].Owners {
+				owners = append(owners, o)
+			}
+			sort.Strings(owners)
+			for _, o := range owners {
+				if i := strings.Index(o, "\\."); i >= 0 {
+					if f := c.W.Zones[o[i+2:]]; f != nil && f.Signed && !f.NoDS && !f.WrongDS {
+						cand = append(cand, [3]string{o, a, f.Apex})
+					}
+				}
+			}
+		}
+		if len(cand) > 0 && rapid.Bool().Draw(rt, "confusable") {
+			k := cand[rapid.IntRange(0, len(cand)-1).Draw(rt, "confusablewhich")]
+			confusable = k[0]
+			c.Tamper.Edit, c.Tamper.Zone, c.Tamper.Kind, c.Tamper.Foreign = "foreign-signer", k[1], "answer", k[2]
+		}
+	}
 	n := rapid.IntRange(1, 5).Draw(rt, "nsteps")
 	var prev *vfC01Step
 	for i := 0; i < n; i++ {
@@ -720,6 +755,9 @@ func vfC01Gen(rt *rapid.T) *vfC01Case {
 			st.Name, st.Qtype = prev.Name, prev.Qtype
 		} else {
 			st.Name, st.Qtype = vfworld.GenQuestion(rt, c.W)
+		}
+		if confusable != "" && prev == nil {
+			st.Name, st.Qtype, st.CD = confusable, rapid.SampledFrom([]uint16{dns.TypeA, dns.TypeTXT}).Draw(rt, "confusableqtype"), false
 		}
 		c.Steps = append(c.Steps, st)
 		prev = &c.Steps[len(c.Steps)-1]
@@ -775,6 +813,9 @@ func TestVerifC01World(t *testing.T) {
 		}
 		if c.Tamper != nil {
 			vfstat.Class(U, "tamper:"+c.Tamper.Edit)
+			if c.Tamper.Edit == "foreign-signer" && len(c.Steps) > 0 && strings.Contains(c.Steps[0].Name, "\\.") && fired > 0 {
+				vfstat.Class(U, "label-boundary-impostor-fired")
+			}
 			if c.Tamper.DropDS {
 				vfstat.Class(U, "tamper-drops-ds")
 			}
@@ -825,6 +866,16 @@ func TestVerifC01Debug(t *testing.T) {
 	c := &vfC01Case{W: w, QMin: qm, Tamper: &vfC01Tamper{Zone: "example.test.", Kind: "wildcard", Edit: "empty"}, Steps: []vfC01Step{
 		{Name: "ab.example.test.", Qtype: dns.TypeA, DO: true, EDNS: true, AD: true, Proto: "udp", ClientOctet4: 1},
 	}}
+	if os.Getenv("VERIF_ESCDOT") != "" {
+		w = vfworld.Build([]vfworld.ZoneSpec{
+			{Apex: ".", Signed: true},
+			{Apex: "test.", Signed: true, Owners: map[string][]uint16{"t\\.example.test.": {dns.TypeA}}},
+			{Apex: "example.test.", Signed: true, Owners: map[string][]uint16{"b.example.test.": {dns.TypeA}}},
+		})
+		c = &vfC01Case{W: w, QMin: qm, Tamper: &vfC01Tamper{Zone: "test.", Kind: "answer", Edit: "foreign-signer", Foreign: "example.test."}, Steps: []vfC01Step{
+			{Name: "t\\.example.test.", Qtype: dns.TypeA, DO: true, EDNS: true, AD: true, Proto: "udp", ClientOctet4: 1},
+		}}
+	}
 	obs, _ := vfC01Run(t, t.TempDir(), c)
 	for _, o := range obs {
 		t.Logf("%s\n%v", o.Line, o.Reply)
